@@ -32,7 +32,18 @@ def family(rp):
     f.add("None-into-class", cls + "def x: A := None", "reject")
     f.add("None-into-class?", cls + "def x: A? := None", "accept")
     f.add("class-into-class?", cls + "def x: A? := A()", "accept")
-    f.add("None-as-arg", "def f(a: Int) -> Int => a\nf(None)", "reject")
+    f.add("Int?-into-Float", "def y: Int? := 5\ndef x: Float := y", "reject")
+    f.add("Int?-into-Float?", "def y: Int? := 5\ndef x: Float? := y", "accept")
+    f.add("Int-into-Float?", "def x: Float? := 5", "accept")
+    f.add("subclass?-into-class", cls + "class B: A\n    def b: Int := 2\ndef y: B? := B()\ndef x: A := y", "reject")
+    f.add("subclass-into-class?", cls + "class B: A\n    def b: Int := 2\ndef x: A? := B()", "accept")
+    f.add("call-None-after-nullable-parameter", "def f(a: Int?, b: Int) -> Int => b\nf(None, None)", "reject")
+    f.add("call-nullable-value-after-nullable-parameter", "def f(a: Int?, b: Int) -> Int => b\ndef y: Int? := 1\nf(1, y)", "reject")
+    f.add("call-None-for-nullable-parameter-first", "def f(a: Int?, b: Int) -> Int => b\nf(None, 2)", "accept")
+    f.add("call-None-for-nullable-parameter-last", "def f(b: Int, a: Int?) -> Int => b\nf(2, None)", "accept")
+    f.add("call-constructor-None-after-nullable", "class Box(def label: Str?, def size: Int)\n    def g(self) -> Int => self.size\ndef b := Box(None, None)", "reject")
+    f.add("call-Int?-for-Float-parameter", "def f(a: Float) -> Float => a\ndef y: Int? := 1\nf(y)", "reject")
+    f.add("call-None-as-arg", "def f(a: Int) -> Int => a\nf(None)", "reject")
     f.add("None-as-nullable-arg", "def f(a: Int?) -> Int => 5\nf(None)", "accept")
     f.add("value-as-nullable-arg", "def f(a: Int?) -> Int => 5\nf(3)", "accept")
     f.add("None-returned", "def f() -> Int => None", "reject")
@@ -223,6 +234,12 @@ def run(run):
         except Unsupported as e:
             o = run.ob(f.__name__ + "-encoding", "E2", "kernel is encodable")
             o.inconclusive(f"unsupported construct: {e}")
+    try:
+        # arguments are a consuming position too: the parent of the argument constraint keeps the nullable flag
+        from props import C05
+        C05.ob_call_parameters(run, mir, rp, fam)
+    except Unsupported as e:
+        run.ob("call-parameters-encoding", "E2", "kernel is encodable").inconclusive(f"unsupported construct: {e}")
     if all(o.status == "discharged" for o in run.obs):
         e2.validate_family(run, fam, "null-safety")
     rp.close()
